@@ -175,7 +175,8 @@ def tyTokOf (s : Str) : TyTok :=
   if s == str "object" then .tObject else if s == str "array" then .tArray else if s == str "str" then .tStr
   else if s == str "i64" then .tI64 else if s == str "u64" then .tU64 else if s == str "f64" then .tF64
   else if s == str "bool" then .tBool else if s == str "null" then .tNull else if s == str "Json" then .tJson
-  else if s == str "String" then .tSerdeString else .tSerdeVecU64
+  else if s == str "String" then .tSerdeString else if s == str "u32" then .tSerdeU32 else if s == str "i32" then .tSerdeI32
+  else .tSerdeVecU64
 
 def macroSigOf (j : Json) : MacroSig :=
   { name := (fldStr j "name").getD [],
@@ -193,6 +194,7 @@ def helperKindOf (j : Json) : Option HelperKind :=
   | some "vret" => some .vret
   | some "counter" => some .counter
   | some "wr" => some .wr
+  | some "incl" => some .incl
   | some "wfmt" => some .wr   -- the harness helper that writes the same text through `write!` with a format argument
   | some "macro" => (fld j "sig").map (fun s => .macroH (macroSigOf s))
   | _ => none
@@ -252,6 +254,9 @@ def doRender (r : Registry) (fs : FS) (op : Json) : Json :=
   let name := (fldStr op "name").getD []
   let src := (fldStr op "src").getD []
   let failAt := fldNat op "fail_at"
+  -- data that serde_json cannot represent (the harness passes `u128::MAX`): `Context::wraps` is the first thing every entry
+  -- point does, so each of them returns the serialization error – whatever else is wrong with the call
+  if (fldStr op "rust_data").isSome then finalJson (.err (.of .serdeError) []) else
   let fin : Final := match api with
     | "render" => noWritten (r.render fs name data)
     | "render_with_context" => noWritten (r.renderWithContext fs name data)
@@ -286,6 +291,8 @@ def stepOp (s : Session) (op : Json) : Session × Json :=
   | "set_prevent_indent" => (setReg s i { r with preventIndent := fldBool op "v" }, jObj [("r", jS "ok")])
   | "set_strict" => (setReg s i { r with strict := fldBool op "v" }, jObj [("r", jS "ok")])
   | "write_file" =>
+    -- a file written as raw bytes that are not UTF-8 (`bytes_hex`) cannot be read as a template source: as good as absent
+    if (fldStr op "bytes_hex").isSome then ({ s with fs := assocRemove s.fs ((fldStr op "file").getD []) }, jObj [("r", jS "ok")]) else
     ({ s with fs := assocInsert s.fs ((fldStr op "file").getD []) ((fldStr op "content").getD []) }, jObj [("r", jS "ok")])
   | "delete_file" => ({ s with fs := assocRemove s.fs ((fldStr op "file").getD []) }, jObj [("r", jS "ok")])
   | "clone" => ({ s with regs := s.regs.push r }, jObj [("r", jS "ok")])
